@@ -69,14 +69,18 @@ def floors(tier):
 
 
 # ------------------------------------------------------------------ generation
-def gen_single(rng, ftype, cost, prefix="", n=None):
+def gen_single(rng, ftype, cost, prefix="", n=None, as_many_points_as_parameters=False):
     fid = COST_ALIASES.get(cost)
     counts = fid in POISSON
     if ftype == "xy":
         fam = str(rng.choice(["poly1", "poly2", "exponential", "trig", "poly3"]))
+        if as_many_points_as_parameters:
+            n = len(Model(fam).pnames)  # ndf = 0 until a parameter is fixed or constrained
         spec = gen.gen_xy_spec(rng, family=fam, cost=cost, counts=counts, n=n or int(rng.integers(5, 11)))
     elif ftype == "indexed":
         fam = str(rng.choice(["poly1", "poly2", "exponential", "trig"]))
+        if as_many_points_as_parameters:
+            n = len(Model(fam).pnames)
         spec = gen.gen_indexed_spec(rng, family=fam, cost=cost, counts=counts, n=n or int(rng.integers(5, 11)))
     elif ftype == "hist":
         spec = gen.gen_hist_spec(rng, cost=cost, n_bins=int(rng.integers(6, 10)))
@@ -186,7 +190,7 @@ def gen_case(rng, tier, idx, shard, nshards):
     hl = int(rng.integers(3, 11 if tier == "quick" else 26))
     if kind != "multi":
         cost = "nll" if kind == "unbinned" else (COSTS[(gi // 5) % len(COSTS)] if gi < 60 else str(rng.choice(COSTS)))
-        spec, ops = gen_single(rng, kind, cost)
+        spec, ops = gen_single(rng, kind, cost, as_many_points_as_parameters=(kind in ("xy", "indexed") and gi % 25 in (10, 11)))
         m = Model.from_spec(spec["model"])
         hist = gen_history(rng, m.pnames, m.defaults, hl, reads=READS[kind])
         return {"property": "C10", "kind": kind, "spec": spec, "setup": ops, "history": hist, "minimizer": str(rng.choice(["iminuit", "scipy"]))}
